@@ -88,7 +88,8 @@ struct SS {
     running: Option<usize>,
     grant: Option<(usize, u32)>,
     aborted: bool,
-    lock_holder: Option<usize>,
+    /// (mutex address, holder): the subject may use more than one instrumented mutex
+    held: Vec<(usize, usize)>,
     woken: Vec<bool>,
     delivered: usize,
     terminal_seen: bool,
@@ -138,7 +139,7 @@ impl Sched {
                 running: None,
                 grant: None,
                 aborted: false,
-                lock_holder: None,
+                held: Vec::new(),
                 woken: vec![false; 64],
                 delivered: 0,
                 terminal_seen: false,
@@ -210,13 +211,13 @@ impl Sched {
     }
 
     // ---- bookkeeping calls from the running thread (no decision) -----------------------
-    pub fn unlocked(&self, me: usize, _addr: usize) {
+    pub fn unlocked(&self, me: usize, addr: usize) {
         let mut s = self.m.lock().unwrap();
-        if s.lock_holder == Some(me) {
-            s.lock_holder = None;
+        if let Some(i) = s.held.iter().position(|(a, t)| *a == addr && *t == me) {
+            s.held.remove(i);
         } else if !s.aborted {
-            let holder = s.lock_holder;
-            s.notes.push(format!("unlock by {me} while holder is {holder:?}"));
+            let holder = s.held.iter().find(|(a, _)| *a == addr).map(|(_, t)| *t);
+            s.notes.push(format!("unlock of {addr:#x} by {me} while its holder is {holder:?}"));
         }
     }
     /// A logical thread reports that it completed one more of its own operations.
@@ -242,8 +243,10 @@ impl Sched {
             // (number of answers, spurious?)
             match s.at[t]? {
                 Point::Start => Some((1, false)),
-                Point::BeforeLock(_) => {
-                    if s.lock_holder.is_none() {
+                Point::BeforeLock(a) => {
+                    // free, or (a self-deadlock of the subject) held by the asking thread itself:
+                    // either way nobody else can release it for us
+                    if s.held.iter().all(|(h, _)| *h != a) {
                         Some((1, false))
                     } else {
                         None
@@ -325,15 +328,15 @@ impl Sched {
         let o = opts[k];
         let p = s.at[o.thread].unwrap();
         let at: Vec<Option<&'static str>> = s.at.iter().map(|p| p.map(|p| p.kind())).collect();
-        let (pcs, holder, woken, delivered) = (s.pcs.clone(), s.lock_holder, s.woken.iter().any(|w| *w), s.delivered);
+        let (pcs, holder, woken, delivered) = (s.pcs.clone(), s.held.first().map(|(_, t)| *t), s.woken.iter().any(|w| *w), s.delivered);
         // effects of proceeding past the point
         match p {
-            Point::BeforeLock(_) => s.lock_holder = Some(o.thread),
-            Point::BeforeTryLock(_) => {
+            Point::BeforeLock(a) => s.held.push((a, o.thread)),
+            Point::BeforeTryLock(a) => {
                 // mirrors what the real try_lock is about to find
                 s.try_lock_seen = true;
-                if s.lock_holder.is_none() {
-                    s.lock_holder = Some(o.thread);
+                if s.held.iter().all(|(h, _)| *h != a) {
+                    s.held.push((a, o.thread));
                 }
             }
             Point::Wake(g) => s.woken[g as usize % 64] = true,
@@ -396,7 +399,7 @@ impl Sched {
     }
 
     pub fn holder(&self) -> Option<usize> {
-        self.m.lock().unwrap().lock_holder
+        self.m.lock().unwrap().held.first().map(|(_, t)| *t)
     }
 
     pub fn cs_preempt(&self) -> bool {
